@@ -52,7 +52,7 @@ pub fn spec(id: &str) -> Option<Spec> {
                    entry cost, a few steps more, random), (b) every corelib #[test]. A run is in the domain if the \
                    program (for corelib tests: the executed statements) uses audited libfuncs only. Violation = VM \
                    error, or body steps > gas/100+1. Non-trivial = distinct (program, function, argument vector, gas \
-                   class, configuration) whose trace has >= 3 body steps.",
+                   class, configuration) whose trace has >= 3 body steps. Also (d) coverage programs (dictionaries, u256/u128 helpers, casts, circuits with inverse gates, call chains with very large ap changes, range-cast and bounded-int division wrappers) whose first three scalar inputs are swept over the whole boundary set, and (e) generated programs of C01's generator.",
             floor: |t| t.pick(1500, 10_000),
             shards: |_| 1,
             crash_is_violation: false,
@@ -214,7 +214,7 @@ pub fn spec(id: &str) -> Option<Spec> {
                    format(format(t)) == format(t); comments preserved (ordered when sorting/merging off, as a multiset \
                    otherwise); code tokens equal modulo commas before a closing delimiter (sorting/merging off), or \
                    tokens outside use items and `mod x;` declarations equal + same multiset of mod declarations + same \
-                   set of expanded imported paths (on). Non-trivial = distinct (config, text) fully evaluated.",
+                   set of expanded imported paths (on). Non-trivial = distinct (config, text) fully evaluated. Generated import blocks (nested groups, aliases, repeated paths, self, *) and generated programs are inputs too. Comments are compared as sequences of (marker, word) because long comments are re-wrapped. The oracle is self-tested against 8 deliberately broken formatters at start-up.",
             floor: |t| t.pick(1500, 30_000),
             shards: |_| 16,
             crash_is_violation: false,
@@ -232,7 +232,7 @@ pub fn spec(id: &str) -> Option<Spec> {
                    first) and either query order; diagnostics, Sierra text with debug names, canonical Sierra, CASM and \
                    contract-class JSON are compared byte for byte with a single-threaded reference. The hash of the \
                    raw interned ids is the observed-schedule fingerprint; a project whose runs all share one \
-                   fingerprint is inconclusive. Non-trivial = distinct (project, config, schedule parameters) compared.",
+                   fingerprint is inconclusive. Non-trivial = distinct (project, config, schedule parameters) compared. /verif's own multi-module playground project is compiled too; projects with error diagnostics are compared on diagnostics only.",
             floor: |t| t.pick(20, 150),
             shards: |_| 1,
             crash_is_violation: false,
@@ -251,7 +251,7 @@ pub fn spec(id: &str) -> Option<Spec> {
                    comparison points the diagnostics string (with locations) and, if error-free, the Sierra text are \
                    compared with a FRESH database given the same contents. salsa `executing query` events are counted \
                    on both sides; non-trivial = distinct compared state where the incremental database executed < 90% \
-                   of the fresh one's queries.",
+                   of the fresh one's queries. Projects: examples/, /verif's playground (structs, enums, traits, impls, consts) and a playground with standing ownership errors whose diagnostics carry located notes; edit kinds include pure permutations (swap-similar-lines, move-line, move-item, duplicate-line).",
             floor: |t| t.pick(150, 3000),
             shards: |_| 16,
             crash_is_violation: false,
@@ -266,7 +266,7 @@ pub fn spec(id: &str) -> Option<Spec> {
                    databases are built that differ only in core's cache_file. Dependents (examples/ and a seeded sample \
                    of e2e/examples snippets) are compiled on both: diagnostics string, Sierra text and CASM text must be \
                    equal. Hook H3 counts lowerings served from the cache; non-trivial = distinct (dependent, config) \
-                   that compiled to Sierra with > 0 cache-served lowerings (the from-source side must report 0).",
+                   that compiled to Sierra with > 0 cache-served lowerings (the from-source side must report 0). Library crates other than the corelib are cached too: a hand-written feature library with its dependent, and generated library/dependent pairs (the generated program with everything public, called from a second crate).",
             floor: |t| t.pick(25, 150),
             shards: |_| 8,
             crash_is_violation: false,
@@ -285,7 +285,7 @@ pub fn spec(id: &str) -> Option<Spec> {
                    Operands: the full boundary cross product {MIN,MIN+1,MIN+2,-2..3,10,100,MAX-2..MAX,+-2^k,+-2^k+-1} \
                    plus seeded random operands (quick 150, thorough 10000 per case); ALL 65536 operand pairs for add, \
                    sub, mul on u8 and i8 (quick) and for every binary operation on u8 and i8 (thorough) - see the set \
-                   ops_exhaustive_over_8_bit_operands. Non-trivial = distinct (type, op, operand vector) compared.",
+                   ops_exhaustive_over_8_bit_operands. Non-trivial = distinct (type, op, operand vector) compared. Plus the bounded-int family: bounded_int_div_rem of every unsigned type by 27 constants (1 .. 2^128-1, dense around 2^123..2^128) and bounded_int_constrain of every integer type at the same boundaries; unary cases run on every 2^k, 2^k+-1 of the type and on multiples of the constant incl. the largest quotient. A VM error on an honest run is a violation.",
             floor: |t| t.pick(50_000, 1_000_000),
             shards: |_| 1,
             crash_is_violation: false,
@@ -371,7 +371,7 @@ pub fn spec(id: &str) -> Option<Spec> {
                    lattice point) and run on 8 (thorough 25) argument vectors; the decoded result - value by Sierra \
                    type, or exact panic data - is compared with an independent big-integer interpreter of the \
                    generator's AST. Non-trivial = distinct (program, argument vector, configuration) whose run has >= \
-                   30 body steps.",
+                   30 body steps. Later additions: nested struct members and member paths, compound and member assignment, if-let, closures, snapshot/desnap, fixed-size array destructuring, continue, mid-expression assignment (outside aggregate literals), idiom functions (aggregate rebuild, enum re-wrap), a loop idiom comparing a struct while assigning a nested member, comparisons / arithmetic against 0, 1, -1, MIN, MAX.",
             floor: |t| t.pick(1500, 30_000),
             shards: |_| 1,
             crash_is_violation: false,
@@ -392,7 +392,7 @@ pub fn spec(id: &str) -> Option<Spec> {
                    violation - a use of an array right after it was moved (at every move site the generator recorded), \
                    a value of a struct without Drop that goes out of scope, a double move - and must then have an \
                    error diagnostic. Non-trivial = distinct error-free program compiled under all configurations + \
-                   distinct injected programs.",
+                   distinct injected programs. (c) An ownership matrix: 7 value kinds x 6 move forms x 18 control-flow shapes x 4 use forms, 12 undropped-value shapes and 16 hand-written shapes; every violating program must be rejected and its valid twin must compile to CASM.",
             floor: |t| t.pick(150, 2500),
             shards: |_| 1,
             crash_is_violation: false,
